@@ -1813,7 +1813,7 @@ def run(ctx: Ctx) -> None:
     n_var_total = 0
     for lo in range(0, len(scenarios), chunk):
         part = scenarios[lo:lo + chunk]
-        results = run_many(part, wall=20.0)
+        results = run_many(part, wall=60.0)
         good = _evaluate(ctx, part, results, stats)
         # second pass: edits exactly at observed starts / idle boundaries of these histories
         variants: list[dict] = []
@@ -1824,7 +1824,7 @@ def run(ctx: Ctx) -> None:
         variants = variants[: max(0, n_total - n_base - n_var_total)]
         n_var_total += len(variants)
         if variants:
-            vres = run_many(variants, wall=20.0)
+            vres = run_many(variants, wall=60.0)
             _evaluate(ctx, variants, vres, stats)
     ctx.count("scenarios", "corpus", len(corpus))
     ctx.count("scenarios", "generated", len(base))
@@ -1850,13 +1850,13 @@ def search(ctx: Ctx, broken: list) -> None:
     scenarios = first + [sc for _, sc in _corpus()] + [scale_scenario(gen_scenario(ctx.rng, 7_000_000 + ctx.seed * 1_000_000 + i, i % 16), gen_unit(ctx.rng)) for i in range(n)]
     for lo in range(0, len(scenarios), 400):
         part = scenarios[lo:lo + 400]
-        good = _evaluate(ctx, part, run_many(part, wall=20.0), stats, with_tie=False)
+        good = _evaluate(ctx, part, run_many(part, wall=60.0), stats, with_tie=False)
         if any(f.kind == "oracle" for f in ctx.failures):
             return
         variants: list[dict] = []
         for sc, tr in good:
             variants += boundary_variants(ctx.rng, sc, tr, 9_000_000 + lo + len(variants) * 7, 1)
-        _evaluate(ctx, variants, run_many(variants, wall=20.0), stats, with_tie=False)
+        _evaluate(ctx, variants, run_many(variants, wall=60.0), stats, with_tie=False)
         if any(f.kind == "oracle" for f in ctx.failures):
             return
 
@@ -1867,7 +1867,7 @@ def replay(ctx: Ctx, data: dict) -> None:
     if sc is None:
         raise RuntimeError("replay file carries no scenario")
     stats: dict[str, Any] = {"rt": {}, "slack": {}, "sharp_k": {}, "stalls": 0}
-    _evaluate(ctx, [sc], run_many([sc], wall=20.0), stats, with_tie=False)
+    _evaluate(ctx, [sc], run_many([sc], wall=60.0), stats, with_tie=False)
 
 
 if __name__ == "__main__":
